@@ -357,10 +357,16 @@ def report_unchecked(P, L, m, PRE, bad, provenance, wit, restore=None, prefix="a
     if integrator_mechanisms_only and (mech == "Euler" or mech.startswith(("mj_checkAcc", "unclassified"))):
         # degenerate generated model whose reset state itself is not steppable (see ASSUMPTIONS): skipped and counted by the caller
         return
-    wit = dict(wit, nonfinite=bad, mechanism=mech, mechanism_confirmed=confirmed, mechanism_evidence=ev)
+    wit = dict(wit, nonfinite=bad, mechanism=mech, mechanism_confirmed=confirmed, mechanism_evidence=ev, provenance=provenance)
     if confirmed:
+        # the provenance (injected-<target> / organic / from-reset-state) is evidence, not mechanism: it goes into this counter and
+        # into the detail. For the two integrator mechanisms that are positively confirmed per case the signature is the exact
+        # mechanism key (lead decision); the raw-ctrl key keeps its provenance suffix
         P.count("unchecked_result_confirmed:%s:%s" % (mech, provenance))
-        P.violation("%s:%s" % (mech, provenance), wit)
+        if mech.startswith("integrator-result-unchecked:"):
+            P.violation(mech, wit)
+        else:
+            P.violation("%s:%s" % (mech, provenance), wit)
     else:
         P.count("unchecked_result_unconfirmed:%s:%s" % (mech, provenance))
         P.violation("%s:nonfinite-%s-after-step:%s:%s" % (prefix, bad[0], mech, provenance), wit)
